@@ -99,8 +99,11 @@ def binop_post(vm, st, result):
     goals = []
     if st['errors']:
         zero_div = op == '/' and True
+        is_int = isinstance(r, (SInt, int)) and not isinstance(r, bool)
+        goals.append(('after a diagnostic p[0] is still an int (the parser goes on with it)', z3.BoolVal(is_int)))
         goals.append(('a diagnostic only for division by zero / a negative shift count, value 0',
-                      z3.And(z3.BoolVal(op in ('/', '<<', '>>')), (b == 0) if op == '/' else (b < 0), vm.as_int(r) == 0)))
+                      z3.And(z3.BoolVal(op in ('/', '<<', '>>')), (b == 0) if op == '/' else (b < 0),
+                             (vm.as_int(r) == 0) if is_int else z3.BoolVal(False))))
     else:
         goals.append(('p[0] is an int', isinstance(r, (SInt, int)) and not isinstance(r, bool)))
         if isinstance(r, (SInt, int)):
